@@ -103,7 +103,7 @@ func init() {
 		if first {
 			X.z.send(fmt.Sprintf("(assert (and (bvsge %s %s) (bvsle %s %s)))", name, bv(uint64(lo), 64), name, bv(uint64(hi), 64)))
 		}
-		return int(int64(X.Concretize(Sym{T: name, W: 64, Signed: true})))
+		return int(X.ChooseValue(Sym{T: name, W: 64, Signed: true}, lo, hi))
 	})
 	nd("Choice", func(fr *frame, args []value) value {
 		name := ndName(args[0])
@@ -116,7 +116,7 @@ func init() {
 		if first {
 			X.z.send(fmt.Sprintf("(assert (bvult %s %s))", name, bv(uint64(n), 64)))
 		}
-		return int(X.Concretize(Sym{T: name, W: 64}))
+		return int(X.ChooseValue(Sym{T: name, W: 64}, 0, int64(n-1)))
 	})
 	bytesOf := func(name string, n int) []value {
 		b := make([]value, n)
@@ -126,6 +126,20 @@ func init() {
 		return b
 	}
 	nd("Bytes", func(fr *frame, args []value) value { return bytesOf(ndName(args[0]), args[1].(int)) })
+	nd("StringIn", func(fr *frame, args []value) value {
+		name, n := ndName(args[0]), args[1].(int)
+		lo, hi := args[2].(uint8), args[3].(uint8)
+		b := make([]value, n)
+		for i := range b {
+			bn := name + "_" + strconv.Itoa(i)
+			first := X.decls[bn] == 0
+			b[i] = ndScalar(bn, 8, false)
+			if first && !X.IsConcrete {
+				X.z.send(fmt.Sprintf("(assert (and (bvuge %s %s) (bvule %s %s)))", bn, bv(uint64(lo), 8), bn, bv(uint64(hi), 8)))
+			}
+		}
+		return normStr(symstr(b))
+	})
 	nd("String", func(fr *frame, args []value) value {
 		return normStr(symstr(bytesOf(ndName(args[0]), args[1].(int))))
 	})
